@@ -998,7 +998,7 @@ class Interp(object):
             cur.arr = smt.fresh_arr(nm)
             cur.len = smt.fresh_int(nm + '_len')
             self.ctx.assume(cur.len >= 0)
-        elif isinstance(cur, (bi.SDict, bi.ADict)):
+        elif isinstance(cur, (bi.SDict, bi.ADict, bi.ACounter)):
             cur.havoc(self, nm)
         elif isinstance(cur, PyList):
             cur.go_symbolic()
